@@ -591,6 +591,21 @@ func runC02(c *Checker) {
 	// ---- NONCE-wire ----
 	ruleNONCE(c, "NONCE", enc, dec, initKey, rot, fNonce, fKey, fCipher, fSalt)
 
+	ruleKEYSEP(c)
+	_ = n
+}
+
+// ruleKEYSEP: direction-separated, role-mirrored transport keys (shared by C02 and C04).
+func ruleKEYSEP(c *Checker) {
+	w := c.w
+	split := mboxFunc(c, "(*mailbox.Machine).split")
+	fSendC := w.Field("mailbox.Machine.sendCipher")
+	fRecvC := w.Field("mailbox.Machine.recvCipher")
+	fInit := w.Field("mailbox.handshakeState.initiator")
+	if split == nil || fSendC == nil || fRecvC == nil || fInit == nil {
+		c.anchorFail("Machine.split / sendCipher / recvCipher / initiator")
+		return
+	}
 	// ---- KEYSEP ----
 	initWithSalt := w.Func("(*mailbox.cipherState).InitializeKeyWithSalt")
 	if initWithSalt == nil {
@@ -694,5 +709,5 @@ func runC02(c *Checker) {
 		}
 	}
 	c.floor("KEYSEP", 6)
-	_ = n
 }
+
